@@ -293,7 +293,7 @@ func TestC10(t *testing.T) {
 		"trusted base: Go's math package evaluated in float64 and rounded to the element type; tolerance 4 ulp + tiny (float32 Sigmoid: (8+4|x|) ulp, see DESIGN.md 1.6); sign of zero not asserted")
 	defer reportKnownFindings("C10")
 
-	check(t, "ops", 40000, 150000, func(rt *rapid.T) {
+	check(t, "ops", 40000, 400000, func(rt *rapid.T) {
 		c := c10Gen(rt)
 		var node = mkNode(c.op, nil, []string{"y"})
 		ins := []tensor.Tensor{cloneT(c.x)}
